@@ -696,7 +696,11 @@ func (e *Env) applySpec(sf *SpecFunc, args []cval) cval {
 		return cval{name, ret}
 	}
 	vc.sc.DeclFun(name, sorts, ret.Sort)
-	return cval{sx(name, ts...), ret}
+	app := sx(name, ts...)
+	if e.pats != nil && strings.Contains(app, "?") {
+		*e.pats = append(*e.pats, app)
+	}
+	return cval{app, ret}
 }
 
 func (e *Env) evalCall(x *Expr) cval {
@@ -869,6 +873,31 @@ func (e *Env) evalCall(x *Expr) cval {
 			}
 			e.errorf("callres: no call of %s recorded", x.Args[0].Str)
 			return cval{"nilval", CT{Sort: "Val"}}
+		}
+	case "callarg":
+		// callarg("key", i [, "T"]): i-th argument of the first call of key in this function
+		// (receiver excluded for interface methods); with "T" a boxed argument is viewed as T
+		if len(x.Args) >= 2 && x.Args[0].Op == "lit-str" && x.Args[1].Op == "lit-int" {
+			var k int
+			fmt.Sscan(x.Args[1].Int, &k)
+			as := vc.callArgs[x.Args[0].Str]
+			if k >= len(as) {
+				e.errorf("callarg: no call of %s recorded (or too few arguments)", x.Args[0].Str)
+				return cval{"nilval", CT{Sort: "Val"}}
+			}
+			a := as[k]
+			if len(x.Args) == 3 && x.Args[2].Op == "lit-str" {
+				t := e.lookupType(x.Args[2].Str)
+				if t == nil {
+					e.errorf("callarg: unknown type %s", x.Args[2].Str)
+					return a
+				}
+				if a.ct.Sort == "Val" && vc.sortOf(t) != "Val" {
+					return cval{sx(vc.unboxFn(t), a.t), vc.ctOf(t)}
+				}
+				return cval{a.t, vc.ctOf(t)}
+			}
+			return a
 		}
 	case "moderr":
 		// moderr(err): err is non-nil and its dynamic type is declared in this module
